@@ -90,6 +90,7 @@ struct lht_model {
     struct aws_hash_element el[LHT_S];
     bool live[LHT_S];
     size_t count;
+    size_t cells; /* cells in use by the model (constant per unit) */
     /* what aws_hash_table_init was told */
     bool ht_inited;
     aws_hash_callback_destroy_fn *ht_dk;
@@ -252,7 +253,7 @@ void aws_hash_table_clear(struct aws_hash_table *map) {
     __CPROVER_assert(map == &g_T->table, "hash view: the table's own map is cleared");
     __CPROVER_assert(g_m.count <= LHT_S, "model: clear is only modelled for a fully materialised table");
     for (size_t s = 0; s < LHT_S; s++) {
-        if (g_m.live[s]) {
+        if (s < g_m.cells && g_m.live[s]) {
             struct aws_hash_element old = g_m.el[s];
             g_m.live[s] = false;
             lht_call_dk((void *)old.key);
@@ -317,6 +318,7 @@ static void lht_model_reset(void) {
     g_m.dv_last = g_m.dk_last = g_m.rel_last = g_m.calloc_last = NULL;
     g_m.dv_watch = g_m.dk_watch = g_m.rel_watch = &g_m; /* never a key, value or node: nothing watched */
     g_m.ht_cleaned = false;
+    g_m.cells = LHT_S;
     g_m.create_fails = nondet_bool();
     g_m.init_fails = nondet_bool();
     g_M = NULL;
@@ -394,13 +396,14 @@ static void lht_build(struct aws_linked_hash_table *T, size_t max_n, int flags) 
     /* hash view */
     for (size_t s = 0; s < LHT_S; s++) g_m.live[s] = false;
     for (size_t i = 0; i < LHT_K; i++) {
-        if (i < n) {
+        if (i < n && i < max_n) {
             g_m.live[g_a.slot[i]] = true;
             g_m.el[g_a.slot[i]].key = g_a.key[i];
             g_m.el[g_a.slot[i]].value = g_a.node[i];
         }
     }
     g_m.count = n + g_a.hidden;
+    g_m.cells = (flags & LHT_PERMUTE_CELLS) ? max_n : LHT_S;
     g_e = g_a;
 }
 
@@ -551,9 +554,16 @@ __CPROVER_ensures(__CPROVER_return_value == AWS_OP_SUCCESS ==>
 /* clear / clean_up: BOUNDED units (the whole list is materialised: no gaps, at most LHT_K entries).  Every node is
  * unlinked and released; clean_up zeroes the table. */
 #define LHT_NODE_FRAME(i) __CPROVER_assigns(g_a.n > (i) : __CPROVER_object_whole(g_a.node[i])) __CPROVER_frees(g_a.n > (i) : g_a.node[i])
-#define LHT_ALL_NODES_FRAME LHT_NODE_FRAME(0) LHT_NODE_FRAME(1) LHT_NODE_FRAME(2) LHT_NODE_FRAME(3) LHT_NODE_FRAME(4) LHT_NODE_FRAME(5)
-#if LHT_K != 6
-#    error "LHT_ALL_NODES_FRAME lists 6 nodes"
+#if LHT_K == 6
+#    define LHT_ALL_NODES_FRAME LHT_NODE_FRAME(0) LHT_NODE_FRAME(1) LHT_NODE_FRAME(2) LHT_NODE_FRAME(3) LHT_NODE_FRAME(4) LHT_NODE_FRAME(5)
+#elif LHT_K == 5
+#    define LHT_ALL_NODES_FRAME LHT_NODE_FRAME(0) LHT_NODE_FRAME(1) LHT_NODE_FRAME(2) LHT_NODE_FRAME(3) LHT_NODE_FRAME(4)
+#elif LHT_K == 4
+#    define LHT_ALL_NODES_FRAME LHT_NODE_FRAME(0) LHT_NODE_FRAME(1) LHT_NODE_FRAME(2) LHT_NODE_FRAME(3)
+#elif LHT_K == 3
+#    define LHT_ALL_NODES_FRAME LHT_NODE_FRAME(0) LHT_NODE_FRAME(1) LHT_NODE_FRAME(2)
+#else
+#    error "LHT_ALL_NODES_FRAME: LHT_K must be 3..6"
 #endif
 void aws_linked_hash_table_clear(struct aws_linked_hash_table *table)
 __CPROVER_requires(table == g_T && g_a.hidden == 0)
